@@ -6,6 +6,25 @@ import os
 VERIF = os.path.dirname(os.path.dirname(os.path.abspath(__file__)))
 
 CHECKS = {
+    "C01": dict(
+        technique="complete minute-stride sweep + per-second probes vs independent compiler (zic/zdump/zoneinfo) differential",
+        text="All 387 extended zones x all of 2000..2049: quick = 60 s stride (1.0e10 evaluations) with every change "
+             "located to the second, every second within +-120 s of every oracle transition and library change, and "
+             "ZonedDateTime field probes; thorough = the literal per-second sweep. The piecewise-constant function "
+             "(offset, DST flag, abbreviation) must be identical to the one zic/zdump/zoneinfo derive from the same "
+             "Zone/Rule lines. Because the data model is minute-granular this decides the property completely for "
+             "the shipped database in the quick tier up to sub-minute blips away from any transition, and literally "
+             "in the thorough tier.",
+        note="Trusts glibc zic+zdump and CPython zoneinfo (cross-checked per transition); source lines are the "
+             "comments recorded beside the table entries (C12 ties comments to values); host build, shim.",
+        design="2/C01"),
+    "C02": dict(
+        technique="complete minute-stride sweep vs zic differential + Basic/Extended differential + dropped-transition hook counter",
+        text="All 268 basic zones x 2000..2049 as in C01, plus every second of every Dec 31/Jan 1 UTC (the previous-year "
+             "cache path), plus stream equality Basic vs Extended for every shared zone name, plus the guarded hook "
+             "counter of dropped transitions must be 0.",
+        note="Same trusted base as C01; hook SEANDST_ACETIME_VERIF (add-only counter).",
+        design="2/C02"),
     "C06": dict(
         technique="exhaustive enumeration + strided generation vs calendar oracle (datetime / days-from-civil differential)",
         text="Exhaustive enumeration of all 93,136 dates (plus all out-of-range component tuples in a surrounding "
@@ -75,7 +94,7 @@ def main():
     print("MANIFEST.json: %d checks, %d not_applicable" % (len(checks), len(na)))
 
 
-HOOK_COMMITS = []
+HOOK_COMMITS = ["e56c28e"]
 
 if __name__ == "__main__":
     main()
